@@ -177,20 +177,15 @@ func c61state(mode int) (*timeSeries, *c61clock, *c61ghost) {
 		g.status = 2
 	}
 	_, g.tw = c61input("tw")
-	// allocation pattern (same for every level; a nil bucket is an empty bucket): all, none (quick); thorough
-	// adds only-the-newest and only-the-oldest.
-	npat := 2
-	if vfTier() > 0 {
-		npat = 4
-	}
-	alloc := vfChoice("allocation pattern", npat)
+	// allocation pattern (same for every level; a nil bucket is an empty bucket): all allocated / none.
+	alloc := vfChoice("allocation pattern", 2)
 	for _, l := range ts.levels {
 		e, _ := c61time("end")
 		l.end = e
 		l.oldest = vfChoice("oldest", n)
 		l.newest = (l.oldest + n - 1) % n
 		for j := range l.buckets {
-			if alloc == 0 || alloc == 2 && j == l.newest || alloc == 3 && j == l.oldest {
+			if alloc == 0 {
 				l.buckets[j] = &c61obs{vfI64("bucket")}
 			}
 		}
@@ -320,7 +315,7 @@ func VerifC61_latest() {
 // B: real histories from the real initial state satisfy the invariant (witness followed, all other
 // observations 0 as in the (I) harnesses), including the first operations from the zero state.
 func VerifC61_history() {
-	k := 2 + vfTier()
+	k := 2
 	clk := &c61clock{}
 	ts := new(timeSeries)
 	ts.init(c61res(), c61new, c61nb(), clk)
@@ -381,7 +376,7 @@ func VerifC61_history() {
 
 // B, direct statement: Total() == sum of all observations (arbitrary values, no linearity argument).
 func VerifC61_totals() {
-	k := 2 + vfTier()
+	k := 2
 	clk := &c61clock{}
 	ts := new(timeSeries)
 	ts.init(c61res(), c61new, c61nb(), clk)
